@@ -1834,6 +1834,10 @@ func Expire() int {
 	}
 
 	count := count()
+	if count == 0 {
+		// the torrents went away since we sampled the memory usage
+		return +1
+	}
 	fair := low / int64(count)
 
 	bigcount := 0
@@ -1848,6 +1852,9 @@ func Expire() int {
 		return true
 	})
 
+	if bigcount == 0 {
+		return 0
+	}
 	fair2 := (low - smallspace) / int64(bigcount)
 
 	Range(func(h hash.Hash, t *Torrent) bool {
